@@ -22,7 +22,8 @@ def FalseUpTo (o : Oracle M) (s : Eng M) : Prop :=
 
 /-- `x` (under `o`) and `x'` (under `o.never`), both started in `s` -/
 def Loc (o : Oracle M) (s : Eng M) {α : Type} (x x' : Except Err (α × Eng M)) : Prop :=
-  ∀ a s', x = .ok (a, s') → s.loads ≤ s'.loads ∧ s.evals ≤ s'.evals ∧ (FalseUpTo o s' → x' = .ok (a, s'))
+  ∀ a s', x = .ok (a, s') → s.loads ≤ s'.loads ∧ s.evals ≤ s'.evals ∧ s'.st.depth = s.st.depth ∧
+    s'.hasTable = s.hasTable ∧ (FalseUpTo o s' → x' = .ok (a, s'))
 
 theorem FalseUpTo.weaken {o : Oracle M} {s s' : Eng M} (h : FalseUpTo o s')
     (hl : s.loads ≤ s'.loads) (he : s.evals ≤ s'.evals) : FalseUpTo o s :=
@@ -31,11 +32,12 @@ theorem FalseUpTo.weaken {o : Oracle M} {s s' : Eng M} (h : FalseUpTo o s')
 section rules
 variable {o : Oracle M} {α β : Type}
 
-theorem Loc.pure (s : Eng M) (a : α) (s1 : Eng M) (hl : s.loads ≤ s1.loads) (he : s.evals ≤ s1.evals) :
+theorem Loc.pure (s : Eng M) (a : α) (s1 : Eng M) (hl : s.loads ≤ s1.loads) (he : s.evals ≤ s1.evals)
+    (hd : s1.st.depth = s.st.depth := by rfl) (hh : s1.hasTable = s.hasTable := by rfl) :
     Loc o s (Pure.pure (a, s1) : Except Err (α × Eng M)) (Pure.pure (a, s1)) := by
   intro a' s' h
   cases h
-  exact ⟨hl, he, fun _ => rfl⟩
+  exact ⟨hl, he, hd, hh, fun _ => rfl⟩
 
 theorem Loc.error (s : Eng M) (e : Err) (x' : Except Err (α × Eng M)) :
     Loc o s (.error e : Except Err (α × Eng M)) x' := by
@@ -50,10 +52,10 @@ theorem Loc.bind {s : Eng M} {x x' : Except Err (α × Eng M)} {f f' : α × Eng
   | error e => cases h
   | ok v =>
     obtain ⟨a, s1⟩ := v
-    obtain ⟨h1, h2, h3⟩ := hx a s1 rfl
+    obtain ⟨h1, h2, hd1, hh1, h3⟩ := hx a s1 rfl
     have hb : f (a, s1) = .ok (b, s') := h
-    obtain ⟨h4, h5, h6⟩ := hf a s1 h1 h2 b s' hb
-    refine ⟨by omega, by omega, fun hfu => ?_⟩
+    obtain ⟨h4, h5, hd2, hh2, h6⟩ := hf a s1 h1 h2 b s' hb
+    refine ⟨by omega, by omega, by rw [hd2, hd1], by rw [hh2, hh1], fun hfu => ?_⟩
     have := h3 (hfu.weaken h4 h5)
     rw [this]
     exact h6 hfu
@@ -69,10 +71,11 @@ theorem Loc.bind_same {γ : Type} {s : Eng M} (x : Except Err γ) {f f' : γ →
 
 /-- moving to a start state with the same counters -/
 theorem Loc.start {s s0 : Eng M} {x x' : Except Err (α × Eng M)} (h : Loc o s0 x x')
-    (hl : s.loads = s0.loads) (he : s.evals = s0.evals) : Loc o s x x' := by
+    (hl : s.loads = s0.loads) (he : s.evals = s0.evals) (hd : s0.st.depth = s.st.depth := by rfl)
+    (hh : s0.hasTable = s.hasTable := by rfl) : Loc o s x x' := by
   intro a s' hx
-  obtain ⟨h1, h2, h3⟩ := h a s' hx
-  exact ⟨by omega, by omega, h3⟩
+  obtain ⟨h1, h2, h0, hh0, h3⟩ := h a s' hx
+  exact ⟨by omega, by omega, by rw [h0, hd], by rw [hh0, hh], h3⟩
 
 theorem load_loc (s : Eng M) :
     (load o s).2.loads = s.loads + 1 ∧ (load o s).2.evals = s.evals ∧
@@ -104,26 +107,26 @@ theorem Loc.andThen {s : Eng M} {r r' : Except Err (Ctl σ ρ × Eng M)}
   | error e => cases h
   | ok v =>
     obtain ⟨c, s1⟩ := v
-    obtain ⟨h1, h2, h3⟩ := hr c s1 rfl
+    obtain ⟨h1, h2, hd1, hh1, h3⟩ := hr c s1 rfl
     cases c with
     | next a =>
       dsimp only at h
-      obtain ⟨h4, h5, h6⟩ := hk a s1 h1 h2 b s' h
-      refine ⟨by omega, by omega, fun hfu => ?_⟩
+      obtain ⟨h4, h5, hd2, hh2, h6⟩ := hk a s1 h1 h2 b s' h
+      refine ⟨by omega, by omega, by rw [hd2, hd1], by rw [hh2, hh1], fun hfu => ?_⟩
       rw [h3 (hfu.weaken h4 h5)]
       exact h6 hfu
     | brk a =>
       dsimp only at h
       cases h
-      exact ⟨h1, h2, fun hfu => by rw [h3 hfu]; rfl⟩
+      exact ⟨h1, h2, hd1, hh1, fun hfu => by rw [h3 hfu]; rfl⟩
     | ret x =>
       dsimp only at h
       cases h
-      exact ⟨h1, h2, fun hfu => by rw [h3 hfu]; rfl⟩
+      exact ⟨h1, h2, hd1, hh1, fun hfu => by rw [h3 hfu]; rfl⟩
 
 theorem Loc.refl_next (s : Eng M) (a : σ) :
     Loc o s (.ok (.next a, s) : Except Err (Ctl σ ρ × Eng M)) (.ok (.next a, s)) := by
-  intro b s' h; cases h; exact ⟨Nat.le_refl _, Nat.le_refl _, fun _ => rfl⟩
+  intro b s' h; cases h; exact ⟨Nat.le_refl _, Nat.le_refl _, rfl, rfl, fun _ => rfl⟩
 
 variable {g : Game P M} {p : P} {body body' : M → P → σ → Eng M → Except Err (Ctl σ ρ × Eng M)}
 
@@ -191,14 +194,16 @@ end loops
 section nodes
 variable {o : Oracle M} {α : Type}
 
-theorem Loc.ok (s : Eng M) (x : α × Eng M) (hl : s.loads ≤ x.2.loads) (he : s.evals ≤ x.2.evals) :
+theorem Loc.ok (s : Eng M) (x : α × Eng M) (hl : s.loads ≤ x.2.loads) (he : s.evals ≤ x.2.evals)
+    (hd : x.2.st.depth = s.st.depth := by rfl) (hh : x.2.hasTable = s.hasTable := by rfl) :
     Loc o s (.ok x : Except Err (α × Eng M)) (.ok x) := by
-  intro a s' h; cases h; exact ⟨hl, he, fun _ => rfl⟩
+  intro a s' h; cases h; exact ⟨hl, he, hd, hh, fun _ => rfl⟩
 
 /-- a step that does not involve the oracle -/
 theorem Loc.same (s : Eng M) (x : Except Err (α × Eng M))
-    (h : Sat x (fun r => s.loads ≤ r.2.loads ∧ s.evals ≤ r.2.evals)) : Loc o s x x := by
-  intro a s' hx; obtain ⟨h1, h2⟩ := h (a, s') hx; exact ⟨h1, h2, fun _ => hx⟩
+    (h : Sat x (fun r => s.loads ≤ r.2.loads ∧ s.evals ≤ r.2.evals ∧ r.2.st.depth = s.st.depth ∧
+      r.2.hasTable = s.hasTable)) : Loc o s x x := by
+  intro a s' hx; obtain ⟨h1, h2, h3, h4⟩ := h (a, s') hx; exact ⟨h1, h2, h3, h4, fun _ => hx⟩
 
 def LocPv (o : Oracle M) (f f' : PvFn P M) : Prop :=
   ∀ p ply depth pv α β s, Loc o s (f p ply depth pv α β s) (f' p ply depth pv α β s)
@@ -207,39 +212,47 @@ def LocZw (o : Oracle M) (f f' : ZwFn P M) : Prop :=
   ∀ p ply depth pv α cut s, Loc o s (f p ply depth pv α cut s) (f' p ply depth pv α cut s)
 
 theorem leaf_counters (g : Game P M) (p : P) (over : Bool) (s : Eng M) :
-    s.loads ≤ (leaf g p over s).2.loads ∧ s.evals ≤ (leaf g p over s).2.evals := by
-  unfold leaf; exact ⟨Nat.le_refl _, Nat.le_succ _⟩
+    s.loads ≤ (leaf g p over s).2.loads ∧ s.evals ≤ (leaf g p over s).2.evals ∧
+    (leaf g p over s).2.st.depth = s.st.depth := by
+  unfold leaf
+  refine ⟨Nat.le_refl _, Nat.le_succ _, ?_⟩
+  dsimp only
+  split <;> rfl
 
 theorem ttProbe_counters (g : Game P M) (p : P) (ply : Nat) (depth a b : Int) (s : Eng M) :
-    Sat (ttProbe g p ply depth a b s) (fun x => s.loads ≤ x.2.loads ∧ s.evals ≤ x.2.evals) := by
+    Sat (ttProbe g p ply depth a b s) (fun x => s.loads ≤ x.2.loads ∧ s.evals ≤ x.2.evals ∧ x.2.st.depth = s.st.depth ∧
+      x.2.hasTable = s.hasTable) := by
   unfold ttProbe
   apply Sat.bind
   intro te _
   cases te with
-  | none => exact Sat.pure ⟨Nat.le_refl _, Nat.le_refl _⟩
+  | none => exact Sat.pure ⟨Nat.le_refl _, Nat.le_refl _, rfl, rfl⟩
   | some e =>
     dsimp only
     split
     · split
-      · apply Sat.bind; intro pv0 _; exact Sat.pure ⟨Nat.le_refl _, Nat.le_refl _⟩
-      · exact Sat.pure ⟨Nat.le_refl _, Nat.le_refl _⟩
+      · apply Sat.bind; intro pv0 _; exact Sat.pure ⟨Nat.le_refl _, Nat.le_refl _, rfl, rfl⟩
+      · exact Sat.pure ⟨Nat.le_refl _, Nat.le_refl _, rfl, rfl⟩
       · exact Sat.throw
-    · exact Sat.pure ⟨Nat.le_refl _, Nat.le_refl _⟩
+    · exact Sat.pure ⟨Nat.le_refl _, Nat.le_refl _, rfl, rfl⟩
 
 theorem pvInitBest_counters (ply : Nat) (pv : List M) (s : Eng M) :
-    Sat (pvInitBest ply pv s) (fun x => s.loads ≤ x.2.loads ∧ s.evals ≤ x.2.evals) := by
+    Sat (pvInitBest ply pv s) (fun x => s.loads ≤ x.2.loads ∧ s.evals ≤ x.2.evals ∧ x.2.st.depth = s.st.depth ∧
+      x.2.hasTable = s.hasTable) := by
   unfold pvInitBest
   split
-  · apply Sat.bind; intro pv0 _; exact Sat.pure ⟨Nat.le_refl _, Nat.le_refl _⟩
-  · apply Sat.bind; intro x _; exact Sat.pure ⟨Nat.le_refl _, Nat.le_refl _⟩
+  · apply Sat.bind; intro pv0 _; exact Sat.pure ⟨Nat.le_refl _, Nat.le_refl _, rfl, rfl⟩
+  · apply Sat.bind; intro x _; exact Sat.pure ⟨Nat.le_refl _, Nat.le_refl _, rfl, rfl⟩
 
-theorem evict_counters (s : Eng M) (k : H) : (s.evict k).loads = s.loads ∧ (s.evict k).evals = s.evals := by
+theorem evict_counters (s : Eng M) (k : H) :
+    (s.evict k).loads = s.loads ∧ (s.evict k).evals = s.evals ∧ (s.evict k).st = s.st ∧
+    (s.evict k).hasTable = s.hasTable := by
   unfold Eng.evict
   split
-  · exact ⟨rfl, rfl⟩
+  · exact ⟨rfl, rfl, rfl, rfl⟩
   · split
-    · exact ⟨rfl, rfl⟩
-    · exact ⟨rfl, rfl⟩
+    · exact ⟨rfl, rfl, rfl, rfl⟩
+    · exact ⟨rfl, rfl, rfl, rfl⟩
 
 theorem ttPut_loc (s : Eng M) (k : H) : Loc o s (ttPut o s k) (ttPut o.never s k) := by
   unfold ttPut
@@ -253,7 +266,7 @@ theorem ttPut_loc (s : Eng M) (k : H) : Loc o s (ttPut o s k) (ttPut o.never s k
       simp only [if_true, Bool.false_eq_true, if_false]
       intro r s' h
       cases h
-      exact ⟨by omega, by omega, fun hfu => by rw [hf hfu] at hc; cases hc⟩
+      exact ⟨by omega, by omega, rfl, rfl, fun hfu => by rw [hf hfu] at hc; cases hc⟩
     | false =>
       simp only [Bool.false_eq_true, if_false]
       intro r s' hx
@@ -264,14 +277,26 @@ theorem ttPut_loc (s : Eng M) (k : H) : Loc o s (ttPut o s k) (ttPut o.never s k
         rw [hi] at hx0
         have hx' : (some i, (load o s).2.evict k) = (r, s') := Except.ok.inj hx0
         have h1 : s' = (load o s).2.evict k := (congrArg Prod.snd hx').symm
-        obtain ⟨h2, h3⟩ := evict_counters (load o s).2 k
-        exact ⟨by rw [h1]; omega, by rw [h1]; omega, fun _ => hx0⟩
+        obtain ⟨h2, h3, h4, h5⟩ := evict_counters (load o s).2 k
+        exact ⟨by rw [h1]; omega, by rw [h1]; omega, by rw [h1, h4]; rfl, by rw [h1, h5]; rfl, fun _ => hx0⟩
   · have ht' : s.hasTable = false := by simpa using ht
     simp only [ht', Bool.not_false, if_true]
     exact Loc.ok s _ (Nat.le_refl _) (Nat.le_refl _)
 
 theorem setEntry_counters (s : Eng M) (i : Nat) (e : TEntry M) :
     (s.setEntry i e).loads = s.loads ∧ (s.setEntry i e).evals = s.evals := ⟨rfl, rfl⟩
+
+theorem setEntry_st (s : Eng M) (i : Nat) (e : TEntry M) : (s.setEntry i e).st = s.st := rfl
+
+theorem setEntry_hasTable (s : Eng M) (i : Nat) (e : TEntry M) : (s.setEntry i e).hasTable = s.hasTable := rfl
+
+theorem ite_hasTable (c : Prop) [Decidable c] (a b : Eng M) (D : Bool) (ha : a.hasTable = D) (hb : b.hasTable = D) :
+    (if c then a else b).hasTable = D := by
+  split <;> assumption
+
+theorem ite_st_depth (c : Prop) [Decidable c] (a b : Eng M) (D : Int) (ha : a.st.depth = D) (hb : b.st.depth = D) :
+    (if c then a else b).st.depth = D := by
+  split <;> assumption
 
 theorem pvStore_loc (k : H) (depth b : Int) (a : PvAcc M) (s : Eng M) :
     Loc o s (pvStore o k depth b a s) (pvStore o.never k depth b a s) := by
@@ -287,6 +312,8 @@ theorem pvStore_loc (k : H) (depth b : Int) (a : PvAcc M) (s : Eng M) :
     · split
       · exact Loc.ok s1 _ (by simp only [setEntry_counters]; split <;> exact Nat.le_refl _)
           (by simp only [setEntry_counters]; split <;> exact Nat.le_refl _)
+          (by simp only [setEntry_st]; exact ite_st_depth _ _ _ _ rfl rfl)
+          (by simp only [setEntry_hasTable]; exact ite_hasTable _ _ _ _ rfl rfl)
       · exact Loc.ok s1 _ (Nat.le_refl _) (Nat.le_refl _)
     · exact Loc.error s1 _ _
 
@@ -303,6 +330,8 @@ theorem zwStore_loc (k : H) (depth a0 : Int) (a : ZwAcc M) (s : Eng M) :
     split
     · exact Loc.ok s1 _ (by simp only [setEntry_counters]; split <;> exact Nat.le_refl _)
         (by simp only [setEntry_counters]; split <;> exact Nat.le_refl _)
+        (by simp only [setEntry_st]; exact ite_st_depth _ _ _ _ rfl rfl)
+        (by simp only [setEntry_hasTable]; exact ite_hasTable _ _ _ _ rfl rfl)
     · exact Loc.error s1 _ _
 
 theorem afterChild_loc {σ : Type} (a : σ) (s : Eng M) :
@@ -317,12 +346,12 @@ theorem afterChild_loc {σ : Type} (a : σ) (s : Eng M) :
     have : load o s = (true, (load o s).2) := by rw [← hc]
     rw [this] at h
     cases h
-    exact ⟨by omega, by omega, fun hfu => by rw [hf hfu] at hc; cases hc⟩
+    exact ⟨by omega, by omega, rfl, rfl, fun hfu => by rw [hf hfu] at hc; cases hc⟩
   | false =>
     have : load o s = (false, (load o s).2) := by rw [← hc]
     rw [this] at h
     cases h
-    exact ⟨by omega, by omega, fun _ => rfl⟩
+    exact ⟨by omega, by omega, rfl, rfl, fun _ => rfl⟩
 
 theorem Loc.ite {s : Eng M} (c : Prop) [Decidable c] {x y x' y' : Except Err (α × Eng M)}
     (ht : c → Loc o s x x') (hf : ¬c → Loc o s y y') :
@@ -331,15 +360,20 @@ theorem Loc.ite {s : Eng M} (c : Prop) [Decidable c] {x y x' y' : Except Err (α
   · simp only [h, if_true]; exact ht h
   · simp only [h, if_false]; exact hf h
 
+theorem ite_depth' (c : Prop) [Decidable c] (a b : Stats) (D : Int) (ha : a.depth = D) (hb : b.depth = D) :
+    (if c then a else b).depth = D := by
+  split <;> assumption
+
 theorem recordCut_counters [DecidableEq M] (s : Eng M) (m : M) (mv ply : Nat) :
-    Sat (recordCut s m mv ply) (fun s' => s'.loads = s.loads ∧ s'.evals = s.evals) := by
+    Sat (recordCut s m mv ply) (fun s' => s'.loads = s.loads ∧ s'.evals = s.evals ∧ s'.st.depth = s.st.depth ∧
+      s'.hasTable = s.hasTable) := by
   unfold recordCut
   dsimp only
   split
   · split
     · exact Sat.error
-    · exact Sat.ok ⟨rfl, rfl⟩
-  · exact Sat.ok ⟨rfl, rfl⟩
+    · exact Sat.ok ⟨rfl, rfl, ite_depth' _ _ _ _ rfl (ite_depth' _ _ _ _ rfl rfl), rfl⟩
+  · exact Sat.ok ⟨rfl, rfl, ite_depth' _ _ _ _ rfl (ite_depth' _ _ _ _ rfl rfl), rfl⟩
 
 theorem pvChild_loc {cpv cpv' : PvFn P M} {czw czw' : ZwFn P M} (hp : LocPv o cpv cpv') (hz : LocZw o czw czw')
     (i : Nat) (child : P) (ply : Nat) (depth : Int) (tail : List M) (a b : Int) (s : Eng M) :
@@ -371,8 +405,8 @@ theorem pvBody_loc [DecidableEq M] (g : Game P M) {cpv cpv' : PvFn P M} {czw czw
   refine Loc.ite _ (fun _ => ?_) (fun _ => (afterChild_loc _ _).start rfl rfl)
   refine Loc.bind_same _ ?_
   intro s2 hs2
-  obtain ⟨h1, h2⟩ := recordCut_counters _ _ _ _ s2 hs2
-  exact (Loc.pure s2 _ s2 (Nat.le_refl _) (Nat.le_refl _)).start h1.symm h2.symm
+  obtain ⟨h1, h2, h3, h4⟩ := recordCut_counters _ _ _ _ s2 hs2
+  exact (Loc.pure s2 _ s2 (Nat.le_refl _) (Nat.le_refl _)).start h1.symm h2.symm h3 h4
 
 theorem pvNode_loc [DecidableEq M] (g : Game P M) (cfg : SOpts) (frame : Bool)
     {cpv cpv' : PvFn P M} {czw czw' : ZwFn P M} (hp : LocPv o cpv cpv') (hz : LocZw o czw czw') :
@@ -381,10 +415,11 @@ theorem pvNode_loc [DecidableEq M] (g : Game P M) (cfg : SOpts) (frame : Bool)
   unfold pvNode
   dsimp only
   split
-  · exact Loc.pure s _ _ (leaf_counters g p _ s).1 (leaf_counters g p _ s).2
+  · exact Loc.pure s _ _ (leaf_counters g p _ s).1 (leaf_counters g p _ s).2.1 (leaf_counters g p _ s).2.2
   · split
     · exact Loc.error s _ _
-    · refine Loc.bind ((Loc.same _ _ (ttProbe_counters g p ply depth a b _)).start rfl rfl) ?_
+    · refine Loc.bind ((Loc.same _ _ (ttProbe_counters g p ply depth a b _)).start rfl rfl
+        (by dsimp only; split <;> rfl)) ?_
       rintro probe s1 _ _
       dsimp only
       cases probe with
@@ -427,15 +462,16 @@ theorem nullMove_loc (g : Game P M) (cfg : SOpts) {czw czw' : ZwFn P M} (hz : Lo
       (fun _ => Loc.pure s1 _ _ (Nat.le_refl _) (Nat.le_refl _))
 
 theorem slideReduction_counters (g : Game P M) (cfg : SOpts) (p : P) (ply : Nat) (depth : Int) (s : Eng M) :
-    Sat (slideReduction g cfg p ply depth s) (fun x => s.loads ≤ x.2.loads ∧ s.evals ≤ x.2.evals) := by
+    Sat (slideReduction g cfg p ply depth s) (fun x => s.loads ≤ x.2.loads ∧ s.evals ≤ x.2.evals ∧ x.2.st.depth = s.st.depth ∧
+      x.2.hasTable = s.hasTable) := by
   unfold slideReduction
   split
   · apply Sat.bind; intro prev _
     apply Sat.bind; intro red _
     split
-    · exact Sat.pure ⟨Nat.le_refl _, Nat.le_refl _⟩
-    · exact Sat.pure ⟨Nat.le_refl _, Nat.le_refl _⟩
-  · exact Sat.pure ⟨Nat.le_refl _, Nat.le_refl _⟩
+    · exact Sat.pure ⟨Nat.le_refl _, Nat.le_refl _, rfl, rfl⟩
+    · exact Sat.pure ⟨Nat.le_refl _, Nat.le_refl _, rfl, rfl⟩
+  · exact Sat.pure ⟨Nat.le_refl _, Nat.le_refl _, rfl, rfl⟩
 
 theorem mcBody_loc {czw czw' : ZwFn P M} (hz : LocZw o czw czw') (ply : Nat) (depth a : Int) (cut : Bool) :
     LocBody o (mcBody czw ply depth a cut) (mcBody czw' ply depth a cut) := by
@@ -477,10 +513,10 @@ theorem zwBody_loc [DecidableEq M] {czw czw' : ZwFn P M} (hz : LocZw o czw czw')
   refine Loc.ite _ (fun _ => ?_) (fun _ => afterChild_loc _ s1)
   refine Loc.bind_same _ ?_
   intro s2 hs2
-  obtain ⟨h1, h2⟩ := recordCut_counters _ _ _ _ s2 hs2
+  obtain ⟨h1, h2, h3, h4⟩ := recordCut_counters _ _ _ _ s2 hs2
   refine Loc.bind_same _ ?_
   intro pv0 _
-  exact (Loc.pure (o := o) { s2 with pv0 := pv0 } _ _ (Nat.le_refl _) (Nat.le_refl _)).start h1.symm h2.symm
+  exact (Loc.pure (o := o) { s2 with pv0 := pv0 } _ _ (Nat.le_refl _) (Nat.le_refl _)).start h1.symm h2.symm h3 h4
 
 theorem zwNode_loc [DecidableEq M] (g : Game P M) (cfg : SOpts) (frame : Bool)
     {czw czw' : ZwFn P M} (hz : LocZw o czw czw') :
@@ -489,7 +525,7 @@ theorem zwNode_loc [DecidableEq M] (g : Game P M) (cfg : SOpts) (frame : Bool)
   unfold zwNode
   dsimp only
   split
-  · exact Loc.pure s _ _ (leaf_counters g p _ s).1 (leaf_counters g p _ s).2
+  · exact Loc.pure s _ _ (leaf_counters g p _ s).1 (leaf_counters g p _ s).2.1 (leaf_counters g p _ s).2.2
   · split
     · exact Loc.error s _ _
     · refine Loc.bind ((Loc.same _ _ (ttProbe_counters g p ply depth a (a + 1) _)).start rfl rfl) ?_
